@@ -239,7 +239,18 @@ class Auditor:
             self.ctx.add(Ob(name, 'M', INCONCLUSIVE, detail='candidate without native scenario: ' + detail,
                             solver_s=time.time() - t0, queries=n))
             return False
-        res = run_replay(replay)
+        if isinstance(replay, list):
+            # several native batteries observe this obligation: the first that reproduces decides
+            res = None
+            for rp in replay:
+                res = run_replay(rp)
+                if res.get('reproduced'):
+                    replay = rp
+                    break
+            else:
+                replay = replay[0]
+        else:
+            res = run_replay(replay)
         if res.get('reproduced'):
             if f is not None:
                 self.ctx.add(Ob(name, 'M', KNOWN, detail=detail, finding=f, solver_s=time.time() - t0, queries=n))
